@@ -72,7 +72,21 @@ def correspond(model_ok, res):
         hist.append(t0)
     trees += hist
     renamed = set(id(t) for t in hist)
-    for tree in trees:
+    aborted = 0
+    for ti_, tree in enumerate(trees):
+        if ti_ % 40 == 7:
+            # a call that cannot complete (a tree deeper than the interpreter's recursion limit): whatever it
+            # raises, the calls that FOLLOW must not see anything of it
+            deep = T.Word("x")
+            for _ in range(3000):
+                deep = T.AndOperation(T.Group(deep), T.Word("y"))
+            try:
+                naming.auto_name(deep)
+            except RecursionError:
+                aborted += 1
+            except Exception as e:  # noqa
+                res.notes.append("auto_name on a 3000-level tree raised %r" % (e,))
+            del deep
         before = lib.g_item(tree)
         desc = gentree.describe(tree)
         w = max([len(nd.children) for _, nd in gentree.all_nodes(tree) if isinstance(nd, T.BaseOperation)] or [0])
@@ -101,7 +115,7 @@ def correspond(model_ok, res):
                 "operands, NoneItem, operations under ranges), plus operations wider than the 52-letter "
                 "alphabet; non-trivial = distinct tree with more than one node")
     res.samples = payloads[3:9]
-    res.distribution = {"max_operation_width_bucket": widths}
+    res.distribution = {"max_operation_width_bucket": widths, "aborted_calls_interleaved": aborted}
     if model_ok:
         defs = ("Definition chk (c : item * option (item * list (str * path))) : bool :=\n"
                 "  match auto_name (fst c), snd c with\n"
